@@ -138,7 +138,7 @@ impl Gen {
     fn leaf(&mut self, l: char, depth: usize, exec_ok: bool, out: &mut String) {
         let mut kind = self.pick(&[
             "special", "builtin", "builtin", "function", "function", "group", "group", "subshell", "subshell",
-            "notfound", "empty", "exec",
+            "notfound", "external", "empty", "exec",
         ]);
         // `exec` changes the table of the enclosing command for good: only
         // where no enclosing command of the same process is being judged
@@ -187,7 +187,9 @@ impl Gen {
         out.push('\n');
         out.push_str(&bodies);
         out.push_str(&format!("obs a{l}\n"));
-        self.meta(l, kind, list, bst, depth, true, true);
+        // an external utility that is found: the simulated OS cannot run it (execve
+        // fails in the child), what status results is the simulator's business
+        self.meta(l, kind, list, bst, depth, kind != "external", true);
     }
 
     fn nest(&mut self, l: char, depth: usize, out: &mut String) {
